@@ -366,6 +366,7 @@ use crate::vspec_line::*;''')
     NOWRAP = (f'old(self).regs().op_index + operation_advance <= u64::MAX && '
               f'{H}.min_inst_len * ((old(self).regs().op_index + operation_advance) / {H}.max_ops) <= u64::MAX')
     ADV_HINT = '''proof {
+            reveal(line_advance);
             let h = header.lh(); let r = old(self).regs();
             let t = r.op_index + operation_advance.0 as int;
             lemma_line_divmod(t, h.max_ops);
@@ -382,7 +383,7 @@ use crate::vspec_line::*;''')
         '[C04:monotone] final(self).regs().address >= old(self).regs().address',
         f'[C04:monotone] old(self).regs().address <= addr_max({H}) ==> final(self).regs().address <= addr_max({H})',
         'res is Err ==> final(self).regs().address == old(self).regs().address',
-        WF_NEW], before=[('self.address = self', ADV_HINT)], canary=True)
+        WF_NEW], before=[('if self.tombstone {', 'proof { reveal(line_advance); }'), ('self.address = self', ADV_HINT)], canary=True)
     SPEC = f'line_exec({H}, old(self).regs(), LineOp::Special(opcode as int))'
     row.splice('exec_special_opcode', ret='res', requires=[VALID, WF_OLD, f'[C04:special-range] opcode as int >= {H}.opcode_base'], ensures=[
         f'[C04:special] res is Ok ==> final(self).regs() == {SPEC}.regs',
